@@ -210,7 +210,7 @@ def module_orders(reg, n_module_ops):
 
 
 class World:
-    """the registries of one case, created lazily at their first use"""
+    """the registries of one case, created by explicit `create` actions (or at first use)"""
 
     def __init__(self, kinds):
         from glom import core
@@ -219,6 +219,7 @@ class World:
         self.regs = [None] * len(kinds)
         self.glommers = [None] * len(kinds)
         self.init_trees = [None] * len(kinds)
+        self.created_obs = [None] * len(kinds)
         self.rec = []
         self.saved = core._DEFAULT_SCOPE[core.TargetRegistry]
         self.swapped = False
@@ -227,20 +228,27 @@ class World:
         core = self.core
         if self.regs[i] is None:
             k = self.kinds[i]
+            created = []
             if k == 'module':
                 r = copy.deepcopy(self.saved)
                 r._type_cache = {}
                 core._DEFAULT_SCOPE[core.TargetRegistry] = r
                 self.swapped = True
+                self.init_trees[i] = trees_json(r)
             elif k.startswith('registry:'):
                 r = core.TargetRegistry(register_default_types=(k[-1] == '1'))
+                self.init_trees[i] = trees_json(r)
             else:
                 g = core.Glommer() if k == 'glommer:1' and i % 2 == 0 else \
                     core.Glommer(register_default_types=(k[-1] == '1'))
                 self.glommers[i] = g
                 r = g.scope[core.TargetRegistry]
+                builtin = set(core.TargetRegistry(register_default_types=False)._op_auto_map)
+                copied = [op for op in r._op_auto_map if op not in builtin]
+                orders = module_orders(r, len(copied))
+                created = [[op, o] for op, o in zip(copied, orders)]
             self.regs[i] = r
-            self.init_trees[i] = trees_json(r)
+            self.created_obs[i] = {'created': created}
             self.instrument(r)
         return self.regs[i]
 
@@ -272,25 +280,47 @@ class World:
             core._DEFAULT_SCOPE[core.TargetRegistry] = self.saved
 
 
+def normalise(case):
+    """every registry is created by an explicit action before its first use"""
+    acts = []
+    made = set()
+    for a in case['actions']:
+        if a['a'] == 'create':
+            if a['reg'] in made:
+                continue
+            made.add(a['reg'])
+        elif a['reg'] not in made:
+            made.add(a['reg'])
+            acts.append({'a': 'create', 'reg': a['reg']})
+        acts.append(a)
+    for i in range(len(case['kinds'])):
+        if i not in made:
+            acts.append({'a': 'create', 'reg': i})
+    return acts
+
+
 def run_impl(case):
     import glom
     from glom import core
     specs = case['classes']
     env = build_classes(specs)
     out = {k: v for k, v in case.items() if not k.startswith('impl')}
+    out['actions'] = normalise(case)
     out['hier'] = hier_tables(env, specs)
-    n_mod = len([1 for _ in ('assign', 'delete')])
     w = World(case['kinds'])
-    out['module_orders'] = module_orders(w.saved, n_mod)
+    out['module_orders'] = module_orders(w.saved, 2)
     obs = []
+    user_autos = {}
     try:
-        for a in case['actions']:
+        for a in out['actions']:
             i = a['reg']
             reg = w.reg(i)
             kind = case['kinds'][i]
             del w.rec[:]
             del RAN[:]
-            if a['a'] == 'register':
+            if a['a'] == 'create':
+                obs.append(w.created_obs[i])
+            elif a['a'] == 'register':
                 t = env[a['ty']]
                 kw = {op: handler_of(tag, op) for op, tag in a['kw']}
                 if a['exact'] or a.get('exact_given'):
@@ -304,9 +334,9 @@ def run_impl(case):
                 obs.append(None)
             elif a['a'] == 'register_op':
                 order = known_order(reg)
-                f = user_auto(a['auto'], a['op']) if a['auto'] in USER_AUTOS else None
                 if a['auto'] not in USER_AUTOS:
                     raise ValueError('unknown auto ' + a['auto'])
+                f = user_auto(a['auto'], a['op'])
                 if kind == 'module':
                     glom.register_op(a['op'], auto_func=f, exact=a['exact'])
                 else:
@@ -348,9 +378,6 @@ def run_impl(case):
                 obs.append({'calls': list(w.rec), 'ran': list(RAN)})
             else:
                 raise ValueError(a['a'])
-        # registries never used still exist for the model
-        for i in range(len(case['kinds'])):
-            w.reg(i)
         trees = [trees_json(r) for r in w.regs]
         init = list(w.init_trees)
     finally:
@@ -534,6 +561,9 @@ def gen_actions(rng, specs, kinds, nreg, regop_rate=0.06):
     lookups(pick_reg(), rng.randint(0, 2))
     for _ in range(nreg):
         i = pick_reg()
+        if rng.random() < 0.15:
+            # construct some registry now (a Glommer is built from the module registry of this moment)
+            acts.append({'a': 'create', 'reg': rng.randrange(len(kinds))})
         if rng.random() < regop_rate:
             op = rng.choice(['uop', 'uop', 'get', 'iterate', 'assign'])
             acts.append({'a': 'register_op', 'reg': i, 'op': op,
@@ -695,7 +725,7 @@ def corpus():
 
 
 def key(case):
-    return {'classes': case['classes'], 'kinds': case['kinds'], 'actions': case['actions']}
+    return {'classes': case['classes'], 'kinds': case['kinds'], 'actions': normalise(case)}
 
 
 def nontrivial(case, verdict):
